@@ -330,10 +330,11 @@ theorem scanFrom_prog {σ} [DecidableEq σ] (env : Env) (prog : σ → Prog σ) 
 
 /-- the initial state: potentials `4·|file| + 11` and `(findCap + 1)` times that -/
 theorem goodP_init {σ} [DecidableEq σ] (env : Env) (reachAt : σ → List (RKey σ)) (root : σ)
-    (h : (reachAt root).contains ([], [], 0, true, [], 0, false) = true) :
+    (h : (reachAt root).contains ([], [], 0, true, [], 0, false, 1) = true) :
     GoodP env reachAt (4 * env.size + 11) ((findCap + 1) * (4 * env.size + 11)) (Sc.init root) := by
   refine Or.inl ⟨{ st := root, stk := [], evk := [] }, h, ⟨rfl, ⟨[], rfl⟩, rfl⟩,
-    ⟨⟨[], rfl, trivial⟩, by simp [Sc.init], by simp [Sc.init], by simp [Sc.init], rfl⟩, ?_, ?_⟩
+    ⟨⟨[], rfl, trivial⟩, by simp [Sc.init], by simp [Sc.init], by simp [Sc.init], rfl,
+      ⟨([], -1), rfl, by simp [Sc.init]⟩, by simp [Sc.init], by simp [Sc.init]⟩, ?_, ?_⟩
   · simp [mu, Sc.init]
     omega
   · simp [bigM, mu, Sc.init, findCap]
